@@ -147,6 +147,7 @@ type c08Res struct {
 	Name string `json:"name"`
 	Kind string `json:"kind"`
 	Yaml string `json:"yaml"`
+	File string `json:"file,omitempty"` // text written to the resource file when it differs from Yaml (anchors / aliases: c08_anchors.go)
 }
 
 var c08Kinds = []string{"Deployment", "StatefulSet", "DaemonSet", "ReplicaSet", "Job", "CronJob", "Pod",
@@ -590,7 +591,11 @@ func writeTree(fs filesys.FileSystem, dir string, t *c08Tree) error {
 		}
 	}
 	for _, r := range t.Own {
-		if err := fs.WriteFile(dir+"/"+r.Name+".yaml", []byte(r.Yaml)); err != nil {
+		text := r.Yaml
+		if r.File != "" {
+			text = r.File
+		}
+		if err := fs.WriteFile(dir+"/"+r.Name+".yaml", []byte(text)); err != nil {
 			return err
 		}
 	}
@@ -1653,9 +1658,9 @@ func configBuild08(r *Run, rng *Rng) {
 
 func runC08(r *Run, rng *Rng, tier string) error {
 	rng = rng.Fork() // decorrelate consecutive seeds (NewRng streams of s and s+1 overlap)
-	nBuild, nFilter, nSearch, nCrd := 260, 500, 500, 150
+	nBuild, nFilter, nSearch, nCrd, nAnchor := 260, 500, 500, 150, 200
 	if tier == "thorough" {
-		nBuild, nFilter, nSearch, nCrd = 2200, 4500, 9000, 2500
+		nBuild, nFilter, nSearch, nCrd, nAnchor = 2200, 4500, 9000, 2500, 3000
 	}
 	r.Meta.Rule = "builds: kustomization trees of depth 1-3 (0-2 bases per layer, 0-3 resources per layer) over Deployment/StatefulSet/DaemonSet/ReplicaSet/Job/CronJob/Pod/" +
 		"ReplicationController/Service/NetworkPolicy/PodDisruptionBudget/ConfigMap/custom kind, label maps present/absent/{}/null, rare odd shapes; directives commonLabels, " +
@@ -1686,6 +1691,22 @@ func runC08(r *Run, rng *Rng, tier string) error {
 		}
 		cnt := 0
 		runBuildCase(r, c08genTree(g, 1+g.Intn(3), &cnt, true), false)
+	}
+	// resource files with YAML anchors / aliases on their label maps (c08_anchors.go); model and oracles see the expanded documents
+	for i := 0; i < nAnchor; i++ {
+		g := rng.Fork()
+		cnt := 0
+		t := c08genTree(g, 1+g.Intn(2), &cnt, true)
+		if anchorize08(g, t) == 0 {
+			r.Count("anchor_build", "no equal label maps")
+			continue
+		}
+		r.Count("anchor_build", "anchored")
+		if g.Chance(70) {
+			t, _ = stripFields(t) // custom field specs switch the union laws off
+		}
+		anchorDirs08(g, t)
+		runBuildCase(r, t, i%2 == 0)
 	}
 	// `crds:` builds (custom kinds declared through OpenAPI extensions), implementation-level laws only: c08_crds.go
 	for i := 0; i < nCrd; i++ {
